@@ -1,7 +1,7 @@
 (* C02 - The SKR contains exactly what the KSR and the signing schema dictate. *)
 From Coq Require Import String.
 From KV Require Import Base.Prelude Base.Exn Base.Bytes Model.Data Model.Wire Model.KsrPolicy Model.Token Model.Sign
-  Proofs.WireProofs Proofs.SignProofs Proofs.SignExact Proofs.SignAll.
+  Proofs.WireProofs Proofs.SignProofs Proofs.SignExact Proofs.SignAll Model.Chain Model.History Proofs.HistoryProofs.
 From KV Require Gen.Wire Gen.Policy.
 
 Theorem C02_response_bundle_facts : forall H token_sign verify ds_hex i b schema ms ttl sn kks validate rb,
@@ -93,3 +93,24 @@ Theorem C02_gen_flags_and_ttl :
   (KV.Gen.Wire.flag_SEP, KV.Gen.Wire.flag_REVOKE, KV.Gen.Wire.flag_ZONE) = (FLAG_SEP, FLAG_REVOKE, FLAG_ZONE) /\ KV.Gen.Policy.ksk_ttl = 172800.
 Proof. exact (conj eq_refl eq_refl). Qed.
 Print Assumptions C02_gen_flags_and_ttl.
+
+(* the response header (signer.create_skr): the request's id, serial, domain and ZSK policy are echoed, the KSK policy states the configured
+   periods, and the bundles are those of sign_bundles, one per request bundle *)
+Theorem C02_response_header : forall Hh token_sign verify ds_hex (c : Config) (st : Step) ns,
+  create_skr Hh token_sign verify ds_hex c st = OK ns ->
+  rs_id ns = rq_id (s_ksr st) /\ rs_serial ns = rq_serial (s_ksr st) /\ rs_domain ns = rq_domain (s_ksr st) /\ rs_zsk ns = rq_zsk (s_ksr st) /\
+  (sp_publish_safety (rs_ksk ns), sp_retire_safety (rs_ksk ns), sp_max_validity (rs_ksk ns), sp_min_validity (rs_ksk ns), sp_max_overlap (rs_ksk ns), sp_min_overlap (rs_ksk ns))
+    = (sp_publish_safety (c_ksk c), sp_retire_safety (c_ksk c), sp_max_validity (c_ksk c), sp_min_validity (c_ksk c), sp_max_overlap (c_ksk c), sp_min_overlap (c_ksk c)) /\
+  sign_bundles Hh token_sign verify ds_hex (s_ksr st) (s_schema st) (s_ms st) (c_ttl c) (c_sn c) (c_kks c) (c_validate c) = OK (rs_bundles ns) /\
+  length (rs_bundles ns) = length (rq_bundles (s_ksr st)).
+Proof. exact create_skr_header. Qed.
+Print Assumptions C02_response_header.
+
+Theorem C02_gen_create_skr :
+  KV.Gen.Policy.create_skr_response_fields =
+    [("id", "request.id"); ("serial", "request.serial"); ("domain", "request.domain"); ("bundles", "list(bundles)");
+     ("ksk_policy", "_ksk_signature_policy(config.ksk_policy, bundles)"); ("zsk_policy", "request.zsk_policy"); ("timestamp", "None")]%string /\
+  KV.Gen.Policy.create_skr_assignments = ["bundles = sign_bundles(request, schema, p11modules, config.ksk_policy, config)"]%string /\
+  KV.Gen.Policy.ksk_signature_policy_returns = ["ksk_policy.signature_policy.replace(algorithms=algorithms)"]%string.
+Proof. repeat split; reflexivity. Qed.
+Print Assumptions C02_gen_create_skr.
